@@ -9,7 +9,7 @@ mkdir -p /tmp/confirm
 git -C /repo worktree remove --force $W >/dev/null 2>&1
 git -C /repo worktree add --detach $W HEAD >/dev/null 2>&1 || { echo "{\"id\":\"$ID\",\"k\":$K,\"error\":\"worktree\"}" > /tmp/confirm/${ID}_$K.json; exit 1; }
 cd $W
-mkdir -p out && cp $SRC/demo_$K.py out/
+mkdir -p out && cp $SRC/*.py out/
 ORIG=$(PYTHONPATH=$W timeout 600 /venv/bin/python out/demo_$K.py 2>&1 | grep -v "Warning\|get_logger\|^$" | tail -25)
 if ! git apply $SRC/patch_$K.diff 2>/tmp/confirm/${ID}_$K.applyerr; then
   echo "{\"id\":\"$ID\",\"k\":$K,\"error\":\"patch does not apply\"}" > /tmp/confirm/${ID}_$K.json
